@@ -747,7 +747,10 @@ META = {
             "UpperBound / LowerBound / TypeHandle.HasType on closed first-order type expressions: affirmed conformance "
             "implies inclusion of members for all types and all constants (on the fragment where the implemented judgement "
             "agrees with the strict one), the upper bound contains every member of each argument, the lower bound only "
-            "members of all. Every run executes the real functions on generated pools of types x universes of constants "
+            "members of all. Fuel sufficiency is proved: the fuelled model functions always answer (no out-of-fuel "
+            "outcome in the modes Fixed and Strict, for every type expression of the model; more fuel never changes an "
+            "answer), so the theorems are also stated without their `= Some ..` hypotheses (`.._total`). "
+            "Every run executes the real functions on generated pools of types x universes of constants "
             "(exhaustive over a depth-2 grammar in the thorough tier; a weighted stream of unions that overlap alternative by "
             "alternative - nested name prefixes, singletons, lists / pairs / maps / structs of them - handed to both bounds in "
             "every order with the constants that separate the alternatives; a weighted stream of tagged unions against struct "
